@@ -167,9 +167,12 @@ OP_KINDS = ["diy", "dim", "wiy", "diyr", "leap", "cwds", "owds", "d1ad",
             "hold", "held_add", "held_reprs", "dto_proc", "dto_diff", "cli",
             "trunc_add", "consts", "props_epoch", "xuse", "xuse",
             "from_epoch_l", "sh_proc", "sh_now", "sh_fmt", "sh_iter",
-            "sh_parts"]
+            "sh_parts", "sh_ref"]
 
 
+OPER_REFS = ["2021-03-01T00:30:00+01:00", "2020-12-31T23:30:00-01:00",
+             "2000-02-29T12:00:00Z", "2001-01-01T00:00:00+05:30",
+             "2023-02-30T06:00:00Z", "19991231T2359-0030"]
 NOMINAL_DURS = ["P1Y", "P1M", "P1Y2M3DT4H", "P400D", "PT36H", "-P1Y", "P13M",
                 "P4Y", "P100Y"]
 
@@ -313,6 +316,14 @@ def gen_op(rng, kind, hot, handles):
         offs = [rng.choice(DURS) for _ in range(rng.choice([0, 1, 1, 2]))]
         return ["sh_proc", gen_point(rng, hot), offs,
                 rng.choice([None, None] + DUMP_FORMATS)]
+    if kind == "sh_ref":
+        # a second long-lived operator, configured: UTC mode and a reference
+        # point of its own (a zoned time next to a month end, a leap day)
+        if rng.random() < 0.5:
+            return ["sh_ref", "proc", [rng.choice(DURS) for _ in range(
+                rng.choice([0, 1, 2]))], rng.choice([None] + DUMP_FORMATS)]
+        return ["sh_ref", "diff", gen_point(rng, hot),
+                rng.random() < 0.5]
     if kind == "sh_parts":
         # the steps process_time_point_str / diff_time_point_strs are made
         # of, called one by one as a host program may
@@ -535,7 +546,9 @@ def directed_ops():
     for xi, (xkind, text) in enumerate(X_VALUES):
         for action in X_ACTIONS[xkind]:
             ops.append(["xuse", "x%d" % xi, xkind, text, action])
-    ops += [["sh_parts", "2000-02-28T00:00:00Z", "2001-03-01T00:00:00Z", "P1M",
+    ops += [["sh_ref", "proc", [], None], ["sh_ref", "proc", ["P1M"], "CCYY-DDD"],
+            ["sh_ref", "diff", "2024-03-01T00:00:00Z", False],
+            ["sh_parts", "2000-02-28T00:00:00Z", "2001-03-01T00:00:00Z", "P1M",
              "CCYY-DDD"],
             ["sh_parts", "20231231T000000Z", "1999-W52-7T00Z", "-P59D",
              "%a %d %b %Y"],
@@ -820,6 +833,13 @@ def do_op(sim, client, op):
             if kind in ("sh_proc", "sh_now"):
                 return sim.oper.process_time_point_str(
                     op[1], op[2] or None, op[3])
+            if kind == "sh_ref":
+                if op[1] == "proc":
+                    return sim.oper_ref.process_time_point_str(
+                        "ref", op[2] or None, op[3])
+                if op[3]:
+                    return sim.oper_ref.diff_time_point_strs(op[2], "ref")
+                return sim.oper_ref.diff_time_point_strs("ref", op[2])
             if kind == "sh_parts":
                 oper = sim.oper
                 p1, fmt1 = oper.date_parse(op[1])
@@ -1261,6 +1281,9 @@ class Sim(object):
         from metomi.isodatetime.datetimeoper import DateTimeOperator
         with kernel.guarded():
             self.oper = DateTimeOperator()
+            self.oper_ref = DateTimeOperator(
+                utc_mode=True, ref_point_str=OPER_REFS[
+                    trace.get("index", 0) % len(OPER_REFS)])
         if self.solo is not None:
             with kernel.guarded():
                 data.Calendar.default().set_mode(self.clients[self.solo].sp)
@@ -1543,6 +1566,9 @@ def run_singletons(trace, picks, alarm=None):
     shared = Shared()
     from metomi.isodatetime.datetimeoper import DateTimeOperator
     oper = DateTimeOperator()
+    oper_ref = DateTimeOperator(
+        utc_mode=True, ref_point_str=OPER_REFS[
+            trace.get("index", 0) % len(OPER_REFS)])
 
     def one(sn):
         from metomi.isodatetime import data
@@ -1550,6 +1576,7 @@ def run_singletons(trace, picks, alarm=None):
         sim = Sim(trace, solo=step["c"])
         sim.shared = shared
         sim.oper = oper
+        sim.oper_ref = oper_ref
         client = sim.clients[step["c"]]
         with kernel.guarded():
             data.Calendar.default().set_mode(client.sp)
